@@ -1,5 +1,5 @@
 CONSTANTS
-  Keys <- Keys7  Vals <- Vals2  BKeys <- Keys7  BVals <- Vals2
+  Keys <- Keys7  Vals <- Vals2  BKeys <- Keys7  BVals <- BVals3
   MaxBatch = 4  MaxSnaps = 2  MaxDepth = 1000000
   Inits <- InitsKV  ProbeKeys <- Probe  IterTable <- IterTab
 SPECIFICATION Spec
